@@ -1,6 +1,7 @@
 import XmppModel.Model.StartTLS
 import XmppModel.Lemmas.StartTLS
 import XmppModel.Lemmas.StartTLSShape
+import XmppModel.Lemmas.StartTLSFuel
 import XmppModel.Generated.C02
 /-!
 # C02 — a client asked to use STARTTLS never proceeds in clear text
@@ -109,6 +110,14 @@ theorem C02_gen_builtin_features_comply :
   simp only [List.mem_cons, List.not_mem_nil, or_false] at hf
   revert st0
   rcases hf with rfl | rfl <;> decide
+
+/-- **The negotiation ends with the peer's input.**  Every negotiator call that does not stop
+consumes at least one unit of the peer's script; with more fuel than the script has units a run
+never ends for lack of fuel — the loops of `negotiateSession` and `intstream.Expect` cannot
+spin, whatever the peer sends (so the `∀ fuel` of the other theorems hides no diverging run). -/
+theorem C02_terminates (cfg : Cfg) (st0 : Mask) (i : Input) (fuel : Nat) (h : i.units < fuel) :
+    (run cfg st0 i fuel).2 ≠ .stop .fuel :=
+  run_nf cfg st0 i fuel h
 
 /-! ### Clear text received before the layer switch is never delivered after it -/
 
